@@ -142,7 +142,7 @@ PROPS = {
             {"name": "answers", "mode": "answers", "quick": 500, "thorough": 15000,
              "args": ["--mix", "satisfy=4,iterate=3,optimise=1,assume=1"]},
             {"name": "minimiser", "mode": "tap", "quick": 400, "thorough": 8000, "args": []},
-            {"name": "symmetric", "mode": "answers", "quick": 1500, "thorough": 30000,
+            {"name": "symmetric", "mode": "answers", "quick": 1500, "thorough": 12000,
              "args": ["--mix", "iterate=3,satisfy=1", "--sympct", "100"]},
             {"name": "nlsearch", "mode": "nlsearch", "quick": 1500, "thorough": 40000, "args": []},
         ],
